@@ -8,5 +8,8 @@ command -v cargo-kani >/dev/null
 command -v cbmc >/dev/null
 command -v rsync >/dev/null
 python3 -c "import json, re, subprocess" 
+# engine M (C09): z3 bindings of the tooling venv and the nightly toolchain for the MIR dump
+python3-vt -c "import z3" 
+cargo +nightly --version >/dev/null
 mkdir -p /var/tmp/shuttle-verif
 echo "setup ok"
